@@ -470,7 +470,7 @@ def run(ctx):
                 "type 0000..00ff, boundary length fields, oversized / non-canonical list counts, magic bytes, plus a seeded random "
                 "supplement; delivered whole / bytewise for the first 64 bytes / cut in the middle; non-trivial = the attacker "
                 "connection was dropped or the transcript's valid block entered state",
-        'samples': [{'family': 'subst', 'mutant': 'byte 9 := ff'}, {'family': 'splice', 'mutant': 'hello[:53] + datablock[58:]'}],
+        'samples': [{'phase': j[0], 'family': m[0], 'mutant': m[1], 'bytes': len(m[2])} for j in jobs[:1] for m in j[2][:4]],
         'exhaustive': True, 'mutants_per_phase': nm, 'per_family': {k: {'runs': v[0], 'attacker_dropped': v[1]} for k, v in fam.items()},
         'attacker_dropped': tot['attacker_dropped'], 'valid_block_entered': tot['block_entered'],
     })
